@@ -260,15 +260,15 @@ func init() {
 func init() {
 	reg(&propCfg{
 		ID:      "C08",
-		Pkgs:    []string{"."},
-		Lenient: []string{".", "head", "dsig", "schema", "uuid", "cbc"},
-		Stages:  []stage{{Name: "digest-flow", Harness: `^H_C08_`}},
-		Functions: []string{"gobl.(*Envelope).calculate", "gobl.(*Envelope).Digest", "gobl.(*Envelope).verifyDigest", "gobl.(*Envelope).ValidateWithContext/Validate", "dsig.(*Digest).Equals", "gobl.wrapError"},
+		Pkgs:    []string{".", "c14n"},
+		Lenient: []string{".", "head", "dsig", "schema", "uuid", "cbc", "c14n"},
+		Stages:  []stage{{Name: "canonical-strings-injective", Harness: `^H_C08_String`}, {Name: "digest-flow", Harness: `^H_C08_Digest`}},
+		Functions: []string{"gobl.(*Envelope).calculate", "gobl.(*Envelope).Digest", "gobl.(*Envelope).verifyDigest", "gobl.(*Envelope).ValidateWithContext/Validate", "dsig.(*Digest).Equals", "gobl.wrapError", "c14n.encodeString (two runs, 2-safety)"},
 		Stubs: []string{"json.Marshal(document) = MARSHAL(content token), c14n.CanonicalJSON = C14N(.), sha256+hex (dsig.NewSHA256Digest) = SHA256(.): uninterpreted functions with injectivity instances (assumption)",
 			"schema.Object.Calculate and validation.ValidateStructWithContext: outcome given by the harness (both outcomes explored)", "native replays use real note.Message documents, real canonicalisation and SHA-256"},
 		Bounds: map[string][]string{
-			"quick":    {"one envelope, content token before and after an edit (equal or different, symbolic), struct validation passing or failing, signed or not"},
-			"thorough": {"same as quick"},
+			"quick":    {"one envelope, content token before and after an edit (equal or different, symbolic), struct validation passing or failing, signed or not", "string injectivity: every pair of byte strings of length 0..2"},
+			"thorough": {"same digest flow; string pairs of length 0..3"},
 		},
 		Outside:     []string{"every-field sweep of real serialised documents and content-preserving re-encodings (that half rests on C07's order / escape independence, stated not re-proved)", "SHA-256 and encoding/json themselves"},
 		Assumptions: []string{"MARSHAL, C14N and SHA256 are injective on the contents considered (collision freedom is not a solver's business)"},
